@@ -368,5 +368,64 @@ def run_k8(ctx, P):
                            what="%s has a loop with a cycle that consumes no input: no path element moves the %s cursor (%s) or calls a "
                                 "function that always does, so an input that takes this path makes the %s spin for ever"
                                 % (name, stage, ", ".join(sorted(S.cursors)), stage), where=f.loc(line))
+    # K8b - the end of input. A cursor primitive does not move at the end of input (advance() at EOF stays at EOF), so a
+    # parser loop whose cycle makes progress *only* through bare primitive calls terminates at EOF only if each of those
+    # calls sits behind a positive test of the current token (`== Comma`, a classifier that returned true, a TokenKind arm
+    # other than Eof): the EOF token fails every such test. A loop of the shape `while current != X { advance() }` has no
+    # such test and spins at the end of the input.
+    from .flow import FlowCx
+    nb = 0
+    for lang in LANGS:
+        S = Stage(P, lang, "parser")
+        for f in S.fns:
+            if f.kind == "closure":
+                continue
+            L = natural_loops(f)
+            if not L:
+                continue
+            fx = None
+            prim_blocks = {bi for bi, t in f.calls() if callee_name(t) in S.prims}
+            other = {bi for bi, t in f.calls() if S.call_kind(t) in ("ok", "iter") or (S.call_kind(t) == "all" and callee_name(t) not in S.prims)}
+            Sx = f.succ()
+            for k, (h, body) in enumerate(L):
+                if h in other:
+                    continue
+                seen = set()
+                st = [s_ for s_ in Sx[h] if s_ in body]
+                cyc = False
+                while st:
+                    x = st.pop()
+                    if x == h:
+                        cyc = True
+                        continue
+                    if x in seen or x in other or x not in body:
+                        continue
+                    seen.add(x)
+                    st.extend(Sx[x])
+                if not cyc:
+                    continue
+                fx = fx or FlowCx(P, f)
+                j = 0
+                for b in sorted(prim_blocks & (seen | {h})):
+                    nb += 1
+                    pos = False
+                    for x in fx.facts_at(b):
+                        flat = str(x)
+                        about_token = any(("cell:Parser.%s" % c_) in flat for c_ in S.cursors) or "cell:Token.kind" in flat
+                        if x[0] == "cmp" and x[1] == "Eq" and about_token:
+                            pos = True
+                        if x[0] == "call" and x[2] is True and str(x[1]).startswith("Parser::"):
+                            pos = True
+                        if x[0] == "variant" and str(x[1]).endswith("TokenKind") and x[2] != "Eof":
+                            pos = True
+                        if x[0] == "variant" and x[1] == "core::option::Option" and x[2] == "Some" and about_token:
+                            pos = True
+                    name = short_id(f.id)
+                    ctx.ob("K8b", "%s::parser#%s.loop[%d].advance[%d]" % (lang, name.split("::")[-1], k, j), pos,
+                           what="%s advances inside a loop whose cycle consumes input only through the bare cursor primitive, and this call is "
+                                "not behind a positive test of the current token: at the end of the input the primitive does not move and "
+                                "the loop never ends" % name, where=f.loc(f.blocks[b]["t"]["line"]))
+                    j += 1
+    ctx.floor("K8b", nb, 15, "cursor primitive calls on primitive-only loop cycles of the parsers")
     ctx.floor("K8", nloops, 140, "loops in the five lexers and parsers")
     ctx.floor("K8", nprim, 10, "cursor-moving primitives")
